@@ -135,6 +135,8 @@ pub struct StdTwin {
     pub n: usize,
     pub bytes: Vec<u8>,
     pub err_kind: u32,
+    /// cursor position of the twin afterwards (cursors only)
+    pub pos: Option<u64>,
 }
 
 impl Rd {
@@ -145,13 +147,13 @@ impl Rd {
         let run = |r: &mut dyn Read, buf: &mut Vec<u8>| -> StdTwin {
             if exact {
                 match r.read_exact(&mut buf[..]) {
-                    Ok(()) => StdTwin { ok: true, n: buflen, bytes: buf.clone(), err_kind: 0 },
-                    Err(e) => StdTwin { ok: false, n: 0, bytes: vec![], err_kind: crate::slice::io_kind(&e) },
+                    Ok(()) => StdTwin { ok: true, n: buflen, bytes: buf.clone(), err_kind: 0, pos: None },
+                    Err(e) => StdTwin { ok: false, n: 0, bytes: vec![], err_kind: crate::slice::io_kind(&e), pos: None },
                 }
             } else {
                 match r.read(&mut buf[..]) {
-                    Ok(n) => StdTwin { ok: true, n, bytes: buf[..n].to_vec(), err_kind: 0 },
-                    Err(e) => StdTwin { ok: false, n: 0, bytes: vec![], err_kind: crate::slice::io_kind(&e) },
+                    Ok(n) => StdTwin { ok: true, n, bytes: buf[..n].to_vec(), err_kind: 0, pos: None },
+                    Err(e) => StdTwin { ok: false, n: 0, bytes: vec![], err_kind: crate::slice::io_kind(&e), pos: None },
                 }
             }
         };
@@ -163,7 +165,9 @@ impl Rd {
             Rd::Cursor(c) => {
                 let mut twin = Cursor::new(c.get_ref().clone());
                 twin.set_position(c.position());
-                Some(run(&mut twin, &mut buf))
+                let mut t = run(&mut twin, &mut buf);
+                t.pos = Some(twin.position());
+                Some(t)
             }
             Rd::Fd { good, script, .. } if script.is_empty() => {
                 let mut twin = good.try_clone().ok()?;
@@ -328,8 +332,10 @@ impl Wr {
 pub struct RdRes {
     pub res: Result<usize, String>,
     pub consumed: Vec<u8>,
-    pub left: usize,
+    /// "left=<bytes still available> pos=<cursor position, 0 for other kinds>"
+    pub left: String,
     pub failed_fd: bool,
+    pub pos: u64,
 }
 
 #[derive(Default)]
@@ -408,7 +414,8 @@ impl Streams {
         let (p1, left) = rd.progress();
         let consumed = if p1 >= p0 { rd.data_at(p0, p1) } else { vec![] };
         let failed_fd = rd.is_fd() && matches!(&res, Err(e) if e.starts_with("err io k=4"));
-        RdRes { res, consumed, left, failed_fd }
+        let pos = if let Rd::Cursor(c) = rd { c.position() } else { 0 };
+        RdRes { res, consumed, left: format!("{} pos={}", left, pos), failed_fd, pos }
     }
 
     pub fn write_from(&mut self, id: u64, f: impl FnOnce(&mut Wr) -> Result<usize, String>) -> (Result<usize, String>, Vec<u8>) {
